@@ -382,6 +382,16 @@ fn make_style_sections<'a>(
     let mut curr = 0;
     for (start_, end_) in submatches {
         let (start, end) = (*start_, *end_);
+        // Submatch coordinates come from the input (rg --json) and are shifted by tab
+        // expansion: ignore any that do not describe a valid, ordered slice of the line.
+        if start < curr
+            || end < start
+            || end > line.len()
+            || !line.is_char_boundary(start)
+            || !line.is_char_boundary(end)
+        {
+            continue;
+        }
         if start > curr {
             sections.push((non_match_style, &line[curr..start]))
         };
